@@ -260,6 +260,17 @@ def run(tier, seed):
                 rep.check(rid, v == 1 or (v == 0 and s.fn.cname == "lha_decoder_new"), "decoder_failed is sticky (only 1 is stored after construction)", s.where(),
                           None, function=s.fn.cname, obj="failed")
 
+        # ---- R1d what the accessors report ------------------------------------------------------------------
+        rid = rep.rule("R1d", "lha_decoder_get_length returns stream_pos (the bytes handed out so far) and lha_decoder_get_crc the running crc, both unmodified and at full width", 2)
+        for gname, fld_, w_ in (("lha_decoder_get_crc", "crc", 16), ("lha_decoder_get_length", "stream_pos", 64)):
+            g_ = rep.need(rid, mod.fn(gname), "function " + gname)
+            if g_:
+                Mg = Matcher(g_)
+                rr_ = rets(g_)
+                ok_ = len(rr_) == 1 and Mg.match(("load", ("field", DEC, fld_, ("param", 0))), rr_[0].ops[0], {}) is not None and min_width_through_casts(g_, rr_[0].ops[0])[0] == w_
+                rep.check(rid, ok_, "%s returns decoder->%s" % (gname, fld_), "%s:%s" % (g_.file, g_.line),
+                          None if ok_ else "the value reported to the caller is not the counter that lha_decoder_read maintains", function=gname, obj=fld_)
+
         # ---- R4 progress -----------------------------------------------------------------------------
         rid = rep.rule("R4", "progress: last_block rises by exactly 1 before each callback(last_block, total_blocks, data); total = ceil(length / block_size)", 4)
         cp = rep.need(rid, mod.fn("check_progress_callback"), "function check_progress_callback")
